@@ -743,3 +743,124 @@ class UnitExp:
     if not sym.contains(t, self.is_atom):
       return 0
     raise Inconsistent(f'unmodelled term kind {k}: {sym.show(t, maxdepth=3)[:120]}')
+
+
+# ------------------------------------------------------------- PERIODIC
+class Periodic:
+  """Dependence of a value on a phase variable φ modulo 2π.
+
+  Abstract value: ('A', s) — the value is s·φ + (a 2π-periodic function of φ)
+  with a known exact slope s (s = 0: periodic or constant), or ('T', reason).
+  sin / cos of an argument with an integer slope are 2π-periodic; any
+  element-wise function of periodic arguments is periodic."""
+
+  TRIG = ('sin', 'cos', 'tan')
+
+  def __init__(self, is_var, number=None):
+    self.is_var = is_var
+    self.number = number or (lambda t: None)  # exact value (Fraction / int) of a φ-free scalar term, or None
+    self.memo = {}
+
+  def of(self, t):
+    key = id(t)
+    if key in self.memo and self.memo[key][0] is t:
+      return self.memo[key][1]
+    r = self._of(t)
+    self.memo[key] = (t, r)
+    return r
+
+  def top(self, why, t):
+    return ('T', f'{why}: {sym.show(t, maxdepth=4)[:140]}')
+
+  def _of(self, t):
+    if self.is_var(t):
+      return ('A', Fraction(1))
+    if not sym.contains(t, self.is_var):
+      return ('A', Fraction(0))
+    k, a = t.k, t.a
+    if k in ('bcast', 'leaf'):
+      return self.of(a[0])
+    if k == 'sub':
+      if sym.contains(a[1], self.is_var):
+        return self.top('phase used as an index', t)
+      return self.of(a[0])
+    if k == 'un':
+      v = self.of(a[1])
+      if v[0] == 'T':
+        return v
+      if a[0] == '-':
+        return ('A', -v[1])
+      if a[0] == '+':
+        return v
+      return v if v[1] == 0 else self.top('logical operation on a non-periodic value', t)
+    if k == 'bin':
+      op = a[0]
+      l, r = self.of(a[1]), self.of(a[2])
+      if l[0] == 'T':
+        return l
+      if r[0] == 'T':
+        return r
+      if op == '+':
+        return ('A', l[1] + r[1])
+      if op == '-':
+        return ('A', l[1] - r[1])
+      if l[1] == 0 and r[1] == 0:
+        return ('A', Fraction(0))
+      if op == '*':
+        for (x, vx), (y, vy) in (((a[1], l), (a[2], r)), ((a[2], r), (a[1], l))):
+          if not sym.contains(x, self.is_var):
+            c = self.number(x)
+            if c is None:
+              return self.top('phase multiplied by a factor whose value is not a source constant', t)
+            return ('A', vy[1] * c)
+        return self.top('product of two non-periodic phase terms', t)
+      if op == '/':
+        if not sym.contains(a[2], self.is_var):
+          c = self.number(a[2])
+          if c is None or c == 0:
+            return self.top('phase divided by a factor whose value is not a source constant', t)
+          return ('A', l[1] / c)
+        return self.top('division by a non-periodic phase term', t)
+      return self.top(f'operator {op} on a non-periodic phase term', t)
+    if k in ('cmp',):
+      vs = [self.of(x) for x in a[1]]
+    elif k == 'bool':
+      vs = [self.of(x) for x in a[1]]
+    elif k in ('tuple', 'list'):
+      vs = [self.of(x) for x in a]
+    elif k == 'phi':
+      vs = [self.of(a[0])]
+      x, y = self.of(a[1]), self.of(a[2])
+      if x[0] == 'T':
+        return x
+      if y[0] == 'T':
+        return y
+      if x[1] != y[1]:
+        return self.top('branches with different phase slopes', t)
+      if x[1] != 0:
+        c = vs[0]
+        return x if c[0] == 'A' and c[1] == 0 else self.top('branch condition is not periodic', t)
+      vs += [x, y]
+    elif k == 'call':
+      short = alg.ext_short(a[0])
+      args = list(a[1]) + [v for _, v in a[2]]
+      if a[0].k == 'attr':
+        args.append(a[0].a[0])
+      vs = [self.of(x) for x in args if isinstance(x, Term)]
+      if short in self.TRIG and len(a[1]) == 1 and not a[2]:
+        v = vs[0]
+        if v[0] == 'T':
+          return v
+        if v[1].denominator != 1:
+          return self.top(f'{short} of an argument with non-integer phase slope {v[1]}', t)
+        return ('A', Fraction(0))
+    elif k == 'obj':
+      vs = [self.of(x) for _, x in a[1]]
+    else:
+      return self.top(f'unmodelled term kind {k}', t)
+    for v in vs:
+      if v[0] == 'T':
+        return v
+    if all(v[1] == 0 for v in vs):
+      return ('A', Fraction(0))
+    return self.top('non-trigonometric function of a non-periodic phase term', t)
